@@ -28,6 +28,8 @@ KeepOpen(ct, fr, ws, wc) == CASE ct = 0 -> FALSE
                               [] ct = 3 -> ~Filled(fr, wc)
                               [] ct = 4 -> ~Filled(fr, wc)
 
+MirrorFR(fr) == CASE fr = 2 -> 3 [] fr = 3 -> 2 [] OTHER -> fr    \* under negation of all windings
+
 Expected(ct, fr, rs, ws, wc) == IF InResult(ct, fr, ws, wc) THEN (IF rs = 1 THEN -1 ELSE 1) ELSE 0
 
 =============================================================================
